@@ -37,6 +37,13 @@ def literals(rng, n):
     for b in range(31, 66):
         vals.add(2**b + rng.randint(-3, 3))
         vals.add(-(2**b) + rng.randint(-3, 3))
+    # modular aliases: values that a wrapping or truncating conversion would map into the range of a type
+    for M in (2**32, 2**64):
+        base = [0, 1, 2, 3, M // 2 - 1, M // 2, M - 1, M - 2] + [rng.randrange(M) for _ in range(6)] + [rng.randrange(2**32) for _ in range(6)]
+        for r in base:
+            for k in (1, 2, -1, -2):
+                vals.add(r + k * M)
+                vals.add(-(r + k * M))
     out = []
     for v in sorted(vals):
         for base in (10, 8, 16):
